@@ -57,6 +57,10 @@ fn main() {
     if ctx.replay.is_none() && std::env::var("RVMC_CHILD").is_err() && std::env::var("RVMC_NO_SUPERVISOR").is_err() {
         std::process::exit(supervise(&prop, &ctx));
     }
+    if ctx.replay.is_some() {
+        // replays run the real-filesystem backend in this process: confine it like a worker
+        engines::sandbox::isolate_filesystem();
+    }
     // replay of a recorded hang: there is no single input to re-run, the watchdog that found it is part of the check
     if let Some(rp) = &ctx.replay {
         if let Ok(txt) = std::fs::read_to_string(rp) {
